@@ -1,5 +1,6 @@
 """C07 — replay memory lasts as long as the credential could still be valid (replay-cache component; the
 pipeline-level part, t_expired from the capped ttl after the time check, is added by the maintainer)."""
+import time
 import vlib
 from props import replay_common
 
@@ -68,6 +69,7 @@ def live_phase(ctx):
         fails.append(dict(f, why="replay memory shorter than the time the credential can still pass the time check: " + f["why"],
                           kind="purge-history"))
     mism += pm
+    queued_across_expiry(ctx, orc, fails, dist)
     ctx.cov.setdefault("input_distribution", {}).update({"live-" + k: v for k, v in dist.items()})
     seen = set()
     for f in fails:
@@ -78,6 +80,72 @@ def live_phase(ctx):
     if mism and not fails:
         ctx.violation("model and daemon disagree in the C07 live phase on %d cases (first: %s)" % (len(mism), mism[0]["diff"]),
                       {"obligation": "correspondence CredModel ~ munged (C07 live)", "first": mism[0]}, found_input=False)
+
+
+def queued_across_expiry(ctx, orc, fails, dist):
+    """A second presentation that WAITS in the work queue while the credential expires and the purge discards its record: it is
+    judged at the time it is decoded (expired), not at the time it arrived (when it would pass the time check and find no
+    record).  One worker thread, held by a stalled client for the I/O timeout; clock and timers moved while the request waits."""
+    import rig, socket, struct
+    exe, err = rig.build_daemon(ctx, name="munged-vt2", san="address", extra_src=rig.vtimer_src(), wraps=rig.VTIMER_WRAPS)
+    if exe is None:
+        ctx.violation("munged does not build with the timer fast-forward shim: " + err[-300:], {"obligation": "build"}, found_input=False)
+        return
+    T = 1500000000
+    for ttl in (5, 30):
+        d = rig.Daemon(ctx, exe, tag="c07q", nthreads=1, clock=T, extra=["--group-update-time=0"])
+        if not d.start():
+            ctx.violation("daemon does not start (queue phase)", {"obligation": "start"}, found_input=False)
+            return
+        try:
+            r, st = rig.encode(d.sock, uid=3, gid=4, ttl=ttl, data=b"queued")
+            first, st = rig.decode(d.sock, r["data"], uid=5, gid=6)
+            d.set_clock(T + 1)
+            stall = socket.socket(socket.AF_UNIX, socket.SOCK_STREAM)
+            stall.connect(d.sock)
+            stall.sendall(rig.MAGIC_BYTES + b"\x04")          # a partial header: holds the only worker for the I/O timeout
+            time.sleep(0.15)
+            body = rig.dec_req_body(r["data"])
+            q = socket.socket(socket.AF_UNIX, socket.SOCK_STREAM)
+            q.connect(d.sock)
+            q.sendall(rig.hdr(rig.T_DEC_REQ, 0, len(body)) + body)   # arrives (and is accepted) at T+1, inside the window
+            time.sleep(0.25)
+            d.set_clock(T + ttl + 100)
+            d.advance_timers(61000)                            # the purge tick: the record (expiry T+ttl) is discarded
+            q.settimeout(8)
+            rep = b""
+            try:
+                while len(rep) < 11 or len(rep) < 11 + struct.unpack(">I", rep[7:11])[0]:
+                    c = q.recv(65536)
+                    if not c:
+                        break
+                    rep += c
+            except OSError:
+                pass
+            q.close(); stall.close()
+            ans = None
+            if len(rep) > 11:
+                try:
+                    ans = rig.parse_dec_rsp(rep[11:])
+                except rig.ParseError:
+                    ans = None
+            ctx.count(("queued-across-expiry", ttl))
+            dist["queued-across-expiry"] = dist.get("queued-across-expiry", 0) + 1
+            if first is None or first["error_num"] != 0:
+                fails.append({"why": "queue phase: the first decode failed (%s)" % (first and first["error_num"]), "kind": "queued"})
+            elif ans is None:
+                fails.append({"why": "a decode request that waited in the work queue got no reply", "kind": "queued"})
+            elif ans["error_num"] == 0:
+                fails.append({"why": "an already decoded credential (ttl %d) was ACCEPTED a second time: its second presentation arrived %d s before "
+                                     "expiry, waited in the work queue while the credential expired and the purge discarded its record, and was "
+                                     "then judged as of its arrival" % (ttl, ttl - 1), "cred_hex": r["data"].hex(), "kind": "queued"})
+            elif ans["error_num"] not in (15, 17):
+                fails.append({"why": "second presentation after a queue wait across expiry answered error %d %r, expected expired"
+                                     % (ans["error_num"], ans["error_str"]), "kind": "queued"})
+        finally:
+            rc, rep_ = d.stop()
+        if rep_.strip():
+            ctx.violation("sanitizer report from the daemon during the C07 queue phase", {"report": rep_[:3000]}, found_input=False)
 
 
 def run(ctx):
